@@ -4,6 +4,7 @@ import (
 	"bufio"
 	"fmt"
 	"io"
+	"net"
 	"net/http"
 	"net/http/cookiejar"
 	"net/url"
@@ -18,6 +19,7 @@ func init() { register("C18", runC18) }
 type c18Case struct {
 	mechs                             []string
 	tlsOff                            bool
+	tlsWord                           string // another spelling given for server.tls (only "disable" itself disables TLS)
 	hostSel                           string
 	queryKey                          string
 	tokenAuth                         bool
@@ -57,11 +59,33 @@ func (c *c18Case) oracleLine() string {
 		l("security.paatokenencryptionkey"), l("security.paatokensigningkey"), l("security.usertokenencryptionkey"), l("server.sessionkey"), l("server.sessionencryptionkey"))
 }
 
+var c18TlsWords = []string{"Disable", "DISABLE", "disabled", "off", "auto", "enable"}
+
+// plainBasicChallenge reports whether the process answers a cleartext request with a Basic challenge.
+func plainBasicChallenge(port int) (bool, string) {
+	c, err := net.DialTimeout("tcp", fmt.Sprintf("127.0.0.1:%d", port), 2*time.Second)
+	if err != nil {
+		return false, ""
+	}
+	defer c.Close()
+	c.SetDeadline(time.Now().Add(2 * time.Second))
+	fmt.Fprintf(c, "RDG_OUT_DATA /remoteDesktopGateway/ HTTP/1.1\r\nHost: localhost\r\nContent-Length: 0\r\n\r\n")
+	buf := make([]byte, 2048)
+	n, _ := io.ReadAtLeast(c, buf, 12)
+	head := string(buf[:n])
+	low := strings.ToLower(head)
+	return strings.HasPrefix(head, "HTTP/1.1 401") && strings.Contains(low, "www-authenticate: basic"), head
+}
+
 // startC18 starts the binary for a case; returns the process.
 func startC18(c *c18Case, dir string, idpURL, sock, cert, key, keytab, krb5 string, seed byte) *gwProc {
 	port := freePort()
 	ta := c.tokenAuth
-	y := &gwYaml{port: port, tlsOn: !c.tlsOff, sock: sock, tokenAuth: &ta, certFile: cert, keyFile: key, keys: map[string]string{}}
+	tw := c.tlsWord
+	if c.via == "env" {
+		tw = ""
+	}
+	y := &gwYaml{port: port, tlsOn: !c.tlsOff, tlsWord: tw, sock: sock, tokenAuth: &ta, certFile: cert, keyFile: key, keys: map[string]string{}}
 	var env []string
 	put := func(section, k, v string) {
 		switch c.via {
@@ -74,6 +98,9 @@ func startC18(c *c18Case, dir string, idpURL, sock, cert, key, keytab, krb5 stri
 		default:
 			y.keys[section+"."+k] = v
 		}
+	}
+	if c.tlsWord != "" && c.via == "env" {
+		env = append(env, "RDPGW_SERVER__TLS="+c.tlsWord)
 	}
 	for i, k := range c18Keys {
 		if c.lens[k] >= 0 {
@@ -141,6 +168,10 @@ func runC18(r *Run) {
 			c.mechs = []string{[]string{"openid", "local", "ntlm", "kerberos"}[rng.Intn(4)]}
 		}
 		c.tlsOff = rng.Intn(2) == 0
+		if rng.Intn(4) == 0 { // another spelling of the TLS mode: only "disable" itself disables TLS
+			c.tlsOff = false
+			c.tlsWord = c18TlsWords[rng.Intn(len(c18TlsWords))]
+		}
 		c.hostSel = []string{"roundrobin", "signed", "unsigned", "any", ""}[rng.Intn(5)]
 		if rng.Intn(2) == 0 {
 			c.queryKey = keyOfLen([]int{1, 32}[rng.Intn(2)], 9)
@@ -171,6 +202,17 @@ func runC18(r *Run) {
 	c = base()
 	c.mechs = []string{"local"}
 	cases = append(cases, c) // local with tls disabled
+	for i, w := range c18TlsWords { // local with the TLS mode spelled differently: TLS stays on
+		c = base()
+		c.mechs = []string{"local"}
+		c.tokenAuth = false
+		c.tlsOff = false
+		c.tlsWord = w
+		if i%2 == 1 {
+			c.via = "env"
+		}
+		cases = append(cases, c)
+	}
 	c = base()
 	c.mechs = []string{"ntlm", "kerberos"}
 	cases = append(cases, c)
@@ -199,13 +241,18 @@ func runC18(r *Run) {
 	}
 	var lines []string
 	type obs struct {
-		running bool
-		stderr  string
+		running    bool
+		stderr     string
+		plainBasic bool
+		plainHead  string
 	}
 	observed := make([]obs, len(cases))
 	for i, c := range cases {
 		p := startC18(c, dir, idp.srv.URL, sock, cert, key, keytab, krb5, byte(i))
 		observed[i] = obs{running: p.running(), stderr: p.stderr.String()}
+		if observed[i].running && has(c.mechs, "local") {
+			observed[i].plainBasic, observed[i].plainHead = plainBasicChallenge(p.port)
+		}
 		p.stop()
 		lines = append(lines, c.oracleLine())
 		r.Dist("via:" + c.via)
@@ -214,10 +261,13 @@ func runC18(r *Run) {
 	for i, c := range cases {
 		r.Count(lines[i] + c.via)
 		want := strings.HasPrefix(ans[i], "running")
-		rep := fmt.Sprintf("mechanisms=%v tls-disabled=%v hostselection=%q querytokensigningkey=%d chars tokenauth=%v enableusertoken=%v keytab=%v hosts=%d key lengths=%v given by %s\nobserved: running=%v\nstderr tail: %s\nmodel: %s\n",
-			c.mechs, c.tlsOff, c.hostSel, len(c.queryKey), c.tokenAuth, c.userToken, c.keytab, c.hosts, c.lens, c.via, observed[i].running, tail(observed[i].stderr, 400), ans[i])
+		rep := fmt.Sprintf("mechanisms=%v tls-disabled=%v (tls word %q) hostselection=%q querytokensigningkey=%d chars tokenauth=%v enableusertoken=%v keytab=%v hosts=%d key lengths=%v given by %s\nobserved: running=%v\nstderr tail: %s\nmodel: %s\n",
+			c.mechs, c.tlsOff, c.tlsWord, c.hostSel, len(c.queryKey), c.tokenAuth, c.userToken, c.keytab, c.hosts, c.lens, c.via, observed[i].running, tail(observed[i].stderr, 400), ans[i])
 		if i < 2 {
 			r.Sample(map[string]interface{}{"mechanisms": c.mechs, "tls_disabled": c.tlsOff, "key_lengths": c.lens, "via": c.via, "running": observed[i].running, "model": ans[i]})
+		}
+		if observed[i].plainBasic {
+			r.Violation("c18-basic-cleartext", "a gateway with local (basic) authentication is running without TLS: it answers a cleartext request with a Basic challenge", rep+fmt.Sprintf("server.tls given as %q\ncleartext answer: %q\n", c.tlsWord, observed[i].plainHead))
 		}
 		if observed[i].running && !want {
 			r.Violation("c18-started", "the gateway started with a configuration the property says must be refused", rep)
